@@ -154,30 +154,30 @@ package momentum
 // what each New* function returns, read off its literal: fresh, pairwise separate sub-objects, fields equal to the
 // arguments / constants they are initialised with (transitively through nested constructors); proved, not assumed
 //@ func NewAwesomeOscillatorStrategy
-//@ ensures[C06] "fresh-and-separate-objects" fresh(result) && fresh(result.AwesomeOscillator) && fresh(result.AwesomeOscillator.LongSma) && fresh(result.AwesomeOscillator.ShortSma) && distinct(result.AwesomeOscillator.LongSma, result.AwesomeOscillator.ShortSma)
-//@ ensures[C06] "configured-as-given" result.AwesomeOscillator.LongSma.Period == 34 && result.AwesomeOscillator.ShortSma.Period == 5
+//@ ensures[C04,C05,C06,C14] "fresh-and-separate-objects" fresh(result) && fresh(result.AwesomeOscillator) && fresh(result.AwesomeOscillator.LongSma) && fresh(result.AwesomeOscillator.ShortSma) && distinct(result.AwesomeOscillator.LongSma, result.AwesomeOscillator.ShortSma)
+//@ ensures[C04,C05,C06,C14] "configured-as-given" result.AwesomeOscillator.LongSma.Period == 34 && result.AwesomeOscillator.ShortSma.Period == 5
 
 //@ func NewRsiStrategy
-//@ ensures[C06] "fresh-and-separate-objects" fresh(result) && fresh(result.Rsi) && fresh(result.Rsi.Rma)
-//@ ensures[C06] "configured-as-given" result.BuyAt == 30 && result.Rsi.Rma.Period == 14 && result.SellAt == 70
+//@ ensures[C04,C05,C06,C14] "fresh-and-separate-objects" fresh(result) && fresh(result.Rsi) && fresh(result.Rsi.Rma)
+//@ ensures[C04,C05,C06,C14] "configured-as-given" result.BuyAt == 30 && result.Rsi.Rma.Period == 14 && result.SellAt == 70
 
 //@ func NewRsiStrategyWith
-//@ ensures[C06] "fresh-and-separate-objects" fresh(result) && fresh(result.Rsi) && fresh(result.Rsi.Rma)
-//@ ensures[C06] "configured-as-given" result.BuyAt == buyAt && result.Rsi.Rma.Period == 14 && result.SellAt == sellAt
+//@ ensures[C04,C05,C06,C14] "fresh-and-separate-objects" fresh(result) && fresh(result.Rsi) && fresh(result.Rsi.Rma)
+//@ ensures[C04,C05,C06,C14] "configured-as-given" result.BuyAt == buyAt && result.Rsi.Rma.Period == 14 && result.SellAt == sellAt
 
 //@ func NewStochasticRsiStrategy
-//@ ensures[C06] "fresh-and-separate-objects" fresh(result) && fresh(result.StochasticRsi) && fresh(result.StochasticRsi.Max) && fresh(result.StochasticRsi.Min) && fresh(result.StochasticRsi.Rsi) && fresh(result.StochasticRsi.Rsi.Rma)
-//@ ensures[C06] "configured-as-given" result.BuyAt == 0.8 && result.SellAt == 0.2 && result.StochasticRsi.Max.Period == 14 && result.StochasticRsi.Min.Period == 14 && result.StochasticRsi.Rsi.Rma.Period == 14
+//@ ensures[C04,C05,C06,C14] "fresh-and-separate-objects" fresh(result) && fresh(result.StochasticRsi) && fresh(result.StochasticRsi.Max) && fresh(result.StochasticRsi.Min) && fresh(result.StochasticRsi.Rsi) && fresh(result.StochasticRsi.Rsi.Rma)
+//@ ensures[C04,C05,C06,C14] "configured-as-given" result.BuyAt == 0.8 && result.SellAt == 0.2 && result.StochasticRsi.Max.Period == 14 && result.StochasticRsi.Min.Period == 14 && result.StochasticRsi.Rsi.Rma.Period == 14
 
 //@ func NewStochasticRsiStrategyWith
-//@ ensures[C06] "fresh-and-separate-objects" fresh(result) && fresh(result.StochasticRsi) && fresh(result.StochasticRsi.Max) && fresh(result.StochasticRsi.Min) && fresh(result.StochasticRsi.Rsi) && fresh(result.StochasticRsi.Rsi.Rma)
-//@ ensures[C06] "configured-as-given" result.BuyAt == buyAt && result.SellAt == sellAt && result.StochasticRsi.Max.Period == 14 && result.StochasticRsi.Min.Period == 14 && result.StochasticRsi.Rsi.Rma.Period == 14
+//@ ensures[C04,C05,C06,C14] "fresh-and-separate-objects" fresh(result) && fresh(result.StochasticRsi) && fresh(result.StochasticRsi.Max) && fresh(result.StochasticRsi.Min) && fresh(result.StochasticRsi.Rsi) && fresh(result.StochasticRsi.Rsi.Rma)
+//@ ensures[C04,C05,C06,C14] "configured-as-given" result.BuyAt == buyAt && result.SellAt == sellAt && result.StochasticRsi.Max.Period == 14 && result.StochasticRsi.Min.Period == 14 && result.StochasticRsi.Rsi.Rma.Period == 14
 
 //@ func NewTripleRsiStrategy
-//@ ensures[C06] "fresh-and-separate-objects" fresh(result) && fresh(result.Rsi) && fresh(result.Rsi.Rma) && fresh(result.Sma)
-//@ ensures[C06] "configured-as-given" result.BuyAt == 30 && result.BuySignalAt == 60 && result.DownDays == 3 && result.Rsi.Rma.Period == 5 && result.SellAt == 50 && result.Sma.Period == 200
+//@ ensures[C04,C05,C06,C14] "fresh-and-separate-objects" fresh(result) && fresh(result.Rsi) && fresh(result.Rsi.Rma) && fresh(result.Sma)
+//@ ensures[C04,C05,C06,C14] "configured-as-given" result.BuyAt == 30 && result.BuySignalAt == 60 && result.DownDays == 3 && result.Rsi.Rma.Period == 5 && result.SellAt == 50 && result.Sma.Period == 200
 
 //@ func NewTripleRsiStrategyWith
-//@ ensures[C06] "fresh-and-separate-objects" fresh(result) && fresh(result.Rsi) && fresh(result.Rsi.Rma) && fresh(result.Sma)
-//@ ensures[C06] "configured-as-given" result.BuyAt == buyAt && result.BuySignalAt == buySignalAt && result.DownDays == downDays && result.Rsi.Rma.Period == period && result.SellAt == sellAt && result.Sma.Period == smaPeriod
+//@ ensures[C04,C05,C06,C14] "fresh-and-separate-objects" fresh(result) && fresh(result.Rsi) && fresh(result.Rsi.Rma) && fresh(result.Sma)
+//@ ensures[C04,C05,C06,C14] "configured-as-given" result.BuyAt == buyAt && result.BuySignalAt == buySignalAt && result.DownDays == downDays && result.Rsi.Rma.Period == period && result.SellAt == sellAt && result.Sma.Period == smaPeriod
 // ---- end of generated constructor contracts ----
